@@ -219,12 +219,12 @@ def run(ctx):
     ctx.tlc_must_pass(r, "CApi design")
     ctx.require_coverage(r, ["Create", "ObjSet", "ObjGet", "ArrPush", "ArrGet", "ArrChange", "Free", "FreeAgain"])
     # 2. behaviours: all scalars (script shaped), all short histories, random long histories
-    gens = [("mc/CApi_scalars.cfg", None), ("mc/CApi_pushref.cfg", None), ("mc/CApi_gen.cfg", None), ("mc/CApi_sim.cfg", 300 if ctx.tier == "thorough" else 40)]
+    gens = [("mc/CApi_scalars.cfg", None), ("mc/CApi_pushref.cfg", None), ("mc/CApi_gen.cfg", None), ("mc/CApi_sim.cfg", 6000 if ctx.tier == "thorough" else 600)]
     behaviours, counts, pushref_keys = [], {}, set()
     for cfg, sim in gens:
         w = min(WORKERS, 4)
         g = ctx.tlc("mc/MC_CApi.tla", cfg, workers=(w if sim else 2), simulate=(max(1, sim // w) if sim else None),
-                    depth=(14 if sim else None), deadlock=False, timeout=2400)
+                    depth=(12 if sim else None), deadlock=False, timeout=2400)
         ctx.tlc_must_pass(g, "CApi generation %s" % cfg)
         bs = b_json(g)
         if not bs:
